@@ -56,7 +56,8 @@ void generate(sim::Rng &r, uint64_t seed, const std::string &tier, sim::Plan &p)
     if ((x < 50 || ntasks == 0) && ntasks < maxtasks) {
       op.kind = "exec";
       // [prio, yields, sleep_ms, has_cb, delay, nested submissions made by the body itself (from the worker thread), their prio]
-      op.a = {r.range(-2, 2), r.range(0, 3), r.chance(300) ? r.range(1, 5) : 0, r.chance(600) ? 1 : 0, delay, r.chance(250) ? r.range(1, 2) : 0, r.range(-2, 2)};
+      // priorities outside [-2, 2] are legal ints: the pool takes them for the nearest end of the range
+      op.a = {r.chance(120) ? r.pick((const long[]){-100, -3, 3, 50}) : r.range(-2, 2), r.range(0, 3), r.chance(300) ? r.range(1, 5) : 0, r.chance(600) ? 1 : 0, delay, r.chance(250) ? r.range(1, 2) : 0, r.range(-2, 2)};
       ++ntasks;
     } else if (x < 65) { op.kind = "status"; op.a = {(long)r.below(64), delay}; }
     else if (x < 80) { op.kind = "cancel"; op.a = {(long)r.below(64), delay}; }
@@ -149,7 +150,7 @@ struct Ctx {
     if (op.kind == "exec") {
       delay = op.arg(4);
       int id = next_parent++;
-      TaskRec tr; tr.prio = std::max(-2L, std::min(2L, op.arg(0))); tr.has_cb = op.arg(3) != 0; tr.epoch = epoch;
+      TaskRec tr; tr.prio = std::max(-1000L, std::min(1000L, op.arg(0))); tr.has_cb = op.arg(3) != 0; tr.epoch = epoch;
       long yields = op.arg(1), sleep_ms = op.arg(2);
       long nested = std::max(0L, std::min(2L, op.arg(5))), child_prio = std::max(-2L, std::min(2L, op.arg(6)));
       int child_base = nparents_total + 2 * id;
@@ -362,7 +363,12 @@ void oracle(const Ctx &ctx, long kind) {
         // first-in-first-out is decided by the order in which the submissions took effect: with submissions from several threads
         // only a submission that had returned before the other one was invoked is certainly the earlier one
         bool y_first = y.sub_ret < x.sub_inv;
-        bool y_better = kind == 1 ? y_first : (y.prio < x.prio || (y.prio == x.prio && y_first));
+        // a priority outside [-2, 2] counts as the nearest end of the range; whether it ranks equal to or beyond that end is left open
+        // (no first-in-first-out claim between an out-of-range task and a task of the level it is clamped to)
+        long ey = std::max(-2L, std::min(2L, y.prio)), ex = std::max(-2L, std::min(2L, x.prio));
+        bool in_range = ey == y.prio && ex == x.prio;
+        if (!in_range) sim::probe("pick_order_with_out_of_range_priority");
+        bool y_better = kind == 1 ? y_first : (ey < ex || (ey == ex && y_first && in_range));
         if (y_better) {
           sim::violation("C05/pick-order", S("single worker picked a task (prio %ld) while a task that must be served first (prio %ld, submitted %s) was certainly waiting",
                                              x.prio, y.prio, y.sub_inv < x.sub_inv ? "earlier" : "later"));
